@@ -337,3 +337,95 @@ func verifControlHeadTail[T any](sources ...Observable[T]) Observable[T] {
 	return MergeWith(sources...)(sources[0])
 }
 `
+
+// NO-HOT-IN-COLD: a cold operator does not build a hot observable when it is built or applied.
+func ruleNoHotInCold() check.Rule {
+	return check.Rule{
+		Name:        "NO-HOT-IN-COLD",
+		NeedControl: true,
+		Doc:         "outside its subscribe closures, an operator that is not hot by definition (the Share family, the subject and connectable constructors) does not construct a hot observable — no call of Share*, NewConnectableObservable*, New*Subject, directly or through the repository helpers it calls: whatever is built there exists once per operator value, so every subscription of the pipeline joins the one running execution (a ticker started by the first subscriber gives the second its first tick early) instead of getting its own",
+		Run: func(c *check.Ctx) {
+			m := c.M
+			scs := scLits(m)
+			n := 0
+			for _, p := range m.Pkgs {
+				armed := c.ArmedPkg(p.PkgPath)
+				info := p.TypesInfo
+				for _, f := range p.Syntax {
+					fname := c.Prog.Fset.Position(f.Pos()).Filename
+					if strings.HasSuffix(fname, "_test.go") {
+						continue
+					}
+					for _, d := range f.Decls {
+						fd, ok := d.(*ast.FuncDecl)
+						if !ok || fd.Body == nil || fd.Recv != nil {
+							continue
+						}
+						declKey := model.ShortPkg(p.PkgPath) + "." + fd.Name.Name
+						if _, hot := hotByDefinition[declKey]; hot || isHotCtorName(fd.Name.Name) {
+							continue
+						}
+						// only functions that build observables / operators
+						if !isOperatorLike(m, info, fd) && !check.IsControlName(fd.Name.Name) {
+							continue
+						}
+						n++
+						var at token.Pos
+						var what string
+						ast.Inspect(fd.Body, func(x ast.Node) bool {
+							if l, ok := x.(*ast.FuncLit); ok && scs[l] != nil {
+								return false // per subscription
+							}
+							call, ok := x.(*ast.CallExpr)
+							if !ok || at != token.NoPos {
+								return true
+							}
+							hotPred := func(q *packages.Package, c2 *ast.CallExpr) bool {
+								cl := model.Callee(q.TypesInfo, c2)
+								if cl == nil || cl.Pkg() == nil || cl.Pkg().Path() != ro || !isHotCtorName(cl.Name()) {
+									return false
+								}
+								// inside a subscribe closure of the helper it is per subscription again
+								for _, fn := range m.EnclosingFuncs(q, c2) {
+									if l, ok := fn.(*ast.FuncLit); ok && scs[l] != nil {
+										return false
+									}
+								}
+								what = cl.Name()
+								return true
+							}
+							if hotPred(p, call) {
+								at = call.Pos()
+								return false
+							}
+							for _, b := range calleeBodies(m, p, call) {
+								if findCallTransitive(m, b.Pkg, b.Body, hotPred, 2) != token.NoPos {
+									at = call.Pos()
+									return false
+								}
+							}
+							return true
+						})
+						key := declKey + "/no-hot-in-cold"
+						if at != token.NoPos {
+							c.Report(armed, key, at, "%s builds a hot observable (%s) outside its subscribe closures: it exists once per operator value and every subscription joins the same running execution", fd.Name.Name, what)
+						} else if armed {
+							c.OK(key, fd.Pos(), "no hot observable is built outside the subscribe closures")
+						}
+					}
+				}
+			}
+			c.Inc("cold_operator_functions", n)
+		},
+	}
+}
+
+func isHotCtorName(n string) bool {
+	return strings.HasPrefix(n, "Share") || strings.HasPrefix(n, "NewConnectableObservable") || strings.HasPrefix(n, "Connectable") || (strings.HasPrefix(n, "New") && strings.HasSuffix(n, "Subject")) || n == "Publish" || n == "Multicast"
+}
+
+const controlsNoHotInCold = `
+func verifControlHiddenShare[T any](d time.Duration) func(Observable[T]) Observable[[]T] {
+	return BufferWhen[T](Pipe1(Interval(d), Share[int64]()))
+}
+`
